@@ -353,6 +353,18 @@ def run_load(cinco, world, schema, desc, pre, data, via="loads", doc_name="doc",
     res = LoadResult()
     root = world.root
     with world.active():
+        # another configuration of the same schema has loaded a file from a different directory
+        # before: configurations share nothing (C13), so this must not matter to anything below
+        try:
+            elsewhere = os.path.join(root, "elsewhere")
+            os.makedirs(elsewhere, exist_ok=True)
+            decoy = schema()
+            decoy_path = os.path.join(elsewhere, "empty." + world.fmt)
+            with open(decoy_path, "wb") as fp:
+                fp.write(cinco.ConfigFormat.get(world.fmt).dumps(decoy, {}))
+            decoy.load(decoy_path, format=world.fmt)
+        except Exception:  # noqa - the decoy's own fate is of no interest
+            pass
         cfg = schema()
         cfg.load_tree(codec.to_py(pre, root))
         res.before = project(cinco, cfg, desc, root)
